@@ -19,10 +19,14 @@ MON = {"toc", "reopen"}
 
 
 def units(tier, seed):
-    return CC.make_units(tier, seed, 700, 16000)
+    # (first unit: the repository's own tests as one more workload under the TOC oracle)
+    return [{"kind": "pytest"}] + CC.make_units(tier, seed, 700, 16000)
 
 
 def run_unit(u, acc):
+    if u.get("kind") == "pytest":
+        from vlib import pytest_workload
+        return pytest_workload.run(acc, "toc", "upstream-suite")
     CC.run_units(u, acc, MON)
 
 
@@ -32,4 +36,7 @@ def inconclusive(cov):
 
 
 def replay(case, acc):
+    if case.get("kind") == "pytest":
+        from vlib import pytest_workload
+        return pytest_workload.run(acc, "toc", "upstream-suite")
     CC.check_case(acc, case, MON)
